@@ -37,12 +37,17 @@ type c19Case struct {
 	Stream []string   `json:"stream"` // A | B | C | noise
 }
 
-var c19Msgs = map[string]string{"A": `{"a":1}`, "B": `{"b":1}`, "C": `{"c":1}`, "noise": `this is not json`}
-var c19Pats = map[string]interface{}{"A": M{"a": "?x"}, "B": M{"b": "?y"}}
+var c19Msgs = map[string]string{"A": `{"a":1}`, "B": `{"b":1}`, "C": `{"c":1}`, "noise": `this is not json`,
+	// T2 matches pattern T in two ways (?t = x, ?t = y), T1 in one
+	"T1": `{"tags":["x"]}`, "T2": `{"tags":["x","y"]}`}
+var c19Pats = map[string]interface{}{"A": M{"a": "?x"}, "B": M{"b": "?y"}, "T": M{"tags": []interface{}{"?t"}}}
 
 // refPass: the pass conditions, with the most permissive consumption (a step ends at the earliest
 // message after which all its expected outputs have been matched).
-func refPass(cs c19Case) bool {
+func refPass(cs c19Case) bool { return refPassMode(cs, false) }
+
+// strict: a selective guard must accept every way of matching (then the tool passes whichever way it offers first)
+func refPassMode(cs c19Case, strict bool) bool {
 	pos := 0
 	for _, set := range cs.Steps {
 		matched := make([]bool, len(set))
@@ -68,6 +73,21 @@ func refPass(cs c19Case) bool {
 				bss, _ := match.Match(c19Pats[o.Pat], msg, match.NewBindings())
 				if len(bss) == 0 || o.Guard == "reject" {
 					continue
+				}
+				if o.Guard == "pick-y" {
+					// most permissive reading: some way of matching is accepted by the guard
+					ok := strict
+					for _, bs := range bss {
+						if bs["?t"] == "y" && !strict {
+							ok = true
+						}
+						if bs["?t"] != "y" && strict {
+							ok = false
+						}
+					}
+					if !ok {
+						continue
+					}
 				}
 				matched[i] = true
 				if o.Inverted {
@@ -97,6 +117,8 @@ func c19Session(cs c19Case, timeout time.Duration) *expect.Session {
 				out.GuardSource = &core.ActionSource{Interpreter: "ecmascript", Source: "return _.bindings;"}
 			case "reject":
 				out.GuardSource = &core.ActionSource{Interpreter: "ecmascript", Source: "return null;"}
+			case "pick-y":
+				out.GuardSource = &core.ActionSource{Interpreter: "ecmascript", Source: `return _.bindings["?t"] == "y" ? _.bindings : null;`}
 			}
 			iop.OutputSet = append(iop.OutputSet, out)
 		}
@@ -149,7 +171,7 @@ func C19(c *vh.Ctx) {
 		c.Eval()
 		want := refPass(cs)
 		timeout := 60 * time.Millisecond // a short timeout can only turn a pass into a fail
-		if want {
+		if want && refPassMode(cs, true) {
 			timeout = 20 * time.Second // never fires when the tool passes
 		}
 		passed, errText, panicked := c19Run(dir, cs, timeout)
@@ -190,7 +212,7 @@ func C19(c *vh.Ctx) {
 	maxSet, maxStream := c.Pick(2, 3), c.Pick(3, 4)
 	c.Bound("output_set_max", maxSet)
 	c.Bound("stream_max", maxStream)
-	c.Rule("sessions of one step with every output set (multiset) of up to the bound over {pattern A, pattern B} x {expected, inverted} x guard {none, accept, reject}, and two-step sessions over a reduced set list; every stream up to the bound over {A, B, C, a non-JSON noise line} including repetitions; the tool drives a scripted subprocess that prints the stream; oracle: the tool may pass only if the reference pass conditions hold (most permissive consumption). Cases the reference fails run with a short timeout (which can only turn pass into fail). non-trivial = reference says pass.")
+	c.Rule("sessions of one step with every output set (multiset) of up to the bound over {pattern A, pattern B} x {expected, inverted} x guard {none, accept, reject}, a second family with a pattern that matches one message in several ways (an array variable) with guards that accept all / one of the ways, and two-step sessions over a reduced set list; every stream up to the bound over {A, B, C, a non-JSON noise line} including repetitions; the tool drives a scripted subprocess that prints the stream; oracle: the tool may pass only if the reference pass conditions hold (most permissive consumption). Cases the reference fails run with a short timeout (which can only turn pass into fail). non-trivial = reference says pass.")
 	kinds := []expOut{}
 	for _, p := range []string{"A", "B"} {
 		for _, inv := range []bool{false, true} {
@@ -241,6 +263,41 @@ func C19(c *vh.Ctx) {
 			if c.WantSample() && len(set) == 2 && len(st) == 3 {
 				c.Sample(cs)
 			}
+		}
+	}
+	// patterns that match one message in several ways: one message is still one message
+	multiKinds := []expOut{{Pat: "T"}, {Pat: "T", Guard: "accept"}, {Pat: "T", Guard: "pick-y"}, {Pat: "T", Inverted: true}, {Pat: "A"}, {Pat: "B"}, {Pat: "B", Inverted: true}}
+	var multiSets [][]expOut
+	for i, k1 := range multiKinds {
+		multiSets = append(multiSets, []expOut{k1})
+		for _, k2 := range multiKinds[i:] {
+			multiSets = append(multiSets, []expOut{k1, k2})
+			if !c.Quick() {
+				for _, k3 := range multiKinds {
+					multiSets = append(multiSets, []expOut{k1, k2, k3})
+				}
+			}
+		}
+	}
+	var multiStreams [][]string
+	var recMulti func(cur []string)
+	recMulti = func(cur []string) {
+		multiStreams = append(multiStreams, append([]string{}, cur...))
+		if len(cur) == maxStream {
+			return
+		}
+		for _, s := range []string{"T2", "T1", "A", "B"} {
+			recMulti(append(cur, s))
+		}
+	}
+	recMulti(nil)
+	for _, set := range multiSets {
+		for _, st := range multiStreams {
+			idx++
+			if !c.Mine(idx) || c.Expired() {
+				continue
+			}
+			one(c19Case{Steps: [][]expOut{set}, Stream: st})
 		}
 	}
 	// two-step sessions: the stream is split across the steps by consumption
